@@ -80,7 +80,7 @@ impl Driver {
                 && !self.r.w.kps.iter().enumerate().any(|(i, k)| &k.owner == *n && !self.kp_used.contains(&i))).cloned().collect();
             if let Some(p) = pick(&mut self.rng, &cand) {
                 let idx = self.r.w.kps.len() + 1;
-                self.call("GenKeyPackage", &p, json!({"kp": idx, "bad": ""}));
+                self.call("GenKeyPackage", &p, json!({"kp": idx, "bad": "", "lr": false}));
                 return true;
             }
         } else if c < 30 {
